@@ -53,6 +53,11 @@ def _gen_case_a(seed: int, tier: str, index: int) -> Dict[str, Any]:
     rng.shuffle(plan)
     cfg = {"snapshot": snap, "net": {"lat_min": 0.001, "lat_max": 0.02}, "loop": {"cost_small_p": 0.2, "cost_small_max": 0.001},
            "tables": None}
+    if rng.random() < 0.4:
+        # tuning knob: a request timeout shorter than the time the library's own refresh holds the connection (26 segments x 50 ms), so
+        # that a command issued behind it waits for the lock longer than one timeout
+        T = rng.choice([1, 1, 2])
+        cfg["tables"] = {"active": {"PROTOCOL_TIMEOUT_IN_SECONDS": T}, "idle": {"PROTOCOL_TIMEOUT_IN_SECONDS": T}}
     return {"property": PROP, "world": "A", "seed": seed, "cfg": cfg, "plan": plan}
 
 
@@ -280,11 +285,23 @@ async def scenario(world: WorldA) -> None:
                     ev.set()
         world.net.taps.append(tap)
 
+        accounted = {"n": len(model.commands), "ctx": "(before the first command)"}
+
+        def unaccounted() -> None:
+            # every command datagram at the spa belongs to the facade command that was judged for it: anything that arrives later
+            # (a retransmission after the command had long been answered) is an extra command
+            extra = list(model.commands[accounted["n"]:])
+            if extra:
+                world.violate(PROP, "command-count", f"{len(extra)} more command datagram(s) reached the spa after {accounted['ctx']} had been "
+                              f"answered and judged: {[c['raw'][:12] for c in extra[:4]]}", sig="command-count:extra-late")
+
         for ci, op in enumerate(world.case["plan"]):
+            unaccounted()
             if man.facade is not facade or not spa.is_connected:
                 raise HarnessError("connection was lost on a benign network")
             if op["gap"]:
                 await asyncio.sleep(op["gap"])
+            unaccounted()
             if op.get("sync"):
                 ev = sent_verb[op["sync"]] = asyncio.Event()
                 try:
@@ -296,6 +313,7 @@ async def scenario(world: WorldA) -> None:
             gate_closed = not spa.is_responding_to_pings
             if gate_closed:
                 res.probe("gate_closed_at_command")
+            unaccounted()
             mark = len(model.commands)
             built = build_command(op, ci, facade, spa, res, cfg["snapshot"], sync=False)
             if built is None:
@@ -314,7 +332,9 @@ async def scenario(world: WorldA) -> None:
                 world.violate(PROP, "command-raised", f"{ctx}: raised {type(e).__name__}: {e}")
             await settle()
             cmds = model.commands[mark:]
-            real = [c for c in cmds if not c.get("dup")]
+            # the network of this check never duplicates: a datagram the spa recognises as a repetition (same sequence number) was sent
+            # twice by the client and counts
+            real = list(cmds)
             if len(real) == 0 and expect["n"] == 1 and gate_closed:
                 # the spa answers every ping on this benign network, yet the library's ping gate was closed and the command
                 # was dropped without any error: recorded (not raised) so that the rest of the history is still judged
@@ -323,6 +343,8 @@ async def scenario(world: WorldA) -> None:
                            f"or while the lock delayed the ping)", sig="command-dropped:ping-gate-closed-on-benign-network")
                 continue
             judge(world, ctx, expect, real, model, spa, facade, ident)
+            accounted.update(n=len(model.commands), ctx=ctx)
+        unaccounted()
         for t in inflight:
             if not t.done():
                 await asyncio.wait([t], timeout=60)
@@ -376,7 +398,7 @@ ASSUMPTIONS = [
     "temperature read-back is compared within one raw unit (1/18 C or 0.1 F); exact raw arithmetic is C14's business",
     "SPACK/SETWC layouts are decoded independently in the harness",
 ]
-PROBES = ["more_than_a_full_cycle_of_pack_commands", "command_while_another_in_flight", "in_active_mode", "in_idle_mode", "eco_on", "eco_off", "watercare_index", "watercare_label",
+PROBES = ["blocking_command", "command_right_after_library_sent_GETWC", "more_than_a_full_cycle_of_pack_commands", "command_while_another_in_flight", "in_active_mode", "in_idle_mode", "eco_on", "eco_off", "watercare_index", "watercare_label",
           "on_from_off:GeckoLight", "off_from_on:GeckoLight", "on_when_already:GeckoLight", "off_when_already:GeckoLight",
           "on_from_off:GeckoBlower", "off_from_on:GeckoBlower", "target_temp_C", "target_temp_F"]
 N_QUICK = 68
@@ -401,3 +423,12 @@ def job_cases(job, tier: str, base_seed: int):
         c = gen_case(run_seed(PROP, base_seed, i), tier, i)
         c["subspace"] = ("blocking:" if c.get("world") == "T" else "") + "snapshot:" + c["cfg"]["snapshot"].split("-")[0]
         yield c
+
+
+def selftest_case(base_seed: int, tier: str, index: int):
+    """Determinism self-test: every third index is a blocking-world case."""
+    from sim.driver import run_seed
+
+    n = len(snapshot_files())
+    i = 4 * n + index // 3 if index % 3 == 2 else index
+    return gen_case(run_seed(PROP, base_seed, i), tier, i)
